@@ -102,6 +102,10 @@ func c16CheckStat(x *Ctx, st *Stat, q *Qid, path string, dotu bool, what string)
 	if !qidOK(st.Qid.Path) || (st.Qid.Type&0x80 != 0) != fi.IsDir() {
 		x.Violate("w5-qid-path", "%s: qid inside the stat is %x/%d for the file with inode %d (dir=%v); earlier replies gave that file the path %d, and this path to the file with inode %d", what, st.Qid.Type, st.Qid.Path, sys.Ino, fi.IsDir(), c16QidOf[sys.Ino], c16InoOf[st.Qid.Path])
 	}
+	if (st.Qid.Type&0x02 != 0) != (fi.Mode()&os.ModeSymlink != 0) {
+		// the qid's symlink bit is not dialect dependent (the mode's is: plain 9P2000 has no DMSYMLINK)
+		x.Violate("w5-qid-type", "%s: qid type inside the stat is %#x for an object with mode %v", what, st.Qid.Type, fi.Mode())
+	}
 	if dotu && fi.Mode()&os.ModeSymlink != 0 {
 		if t, _ := os.Readlink(path); st.Ext != t {
 			x.Violate("w6-stat-ext", "%s: symlink target reported %q, it is %q", what, st.Ext, t)
